@@ -346,13 +346,24 @@ def run(ctx, ck):
     # ---------------------------------------------------------------- D4
     from .C14 import check_f_setter
     check_f_setter(ctx, ck, rule='R-EFFECT.wavelength', with_resets=False)
+    # the speed of light (299.8, written out or kept in a module-level constant) is used by the frequency setter
+    # (and its private helpers) only: nothing else derives a wavelength of its own
+    def is_c(n):
+        return isinstance(n, ast.Constant) and isinstance(n.value, float) and abs(n.value - 299.8) < 1e-9
+    c_names = {nm_ for (mod_, nm_), v_ in m.module_consts.items() if is_c(v_)}
     lits = []
     for g in m.all_funcs():
         for n in walk_no_nested(g.node):
-            if isinstance(n, ast.Constant) and isinstance(n.value, float) and abs(n.value - 299.8) < 1e-9:
+            if is_c(n) or (isinstance(n, ast.Name) and isinstance(n.ctx, ast.Load) and n.id in c_names and
+                           n.id not in g.all_params):
                 lits.append(g.qual)
-    ck.ob('R-EFFECT.wavelength', 'speed-of-light-literal', sorted(set(lits)) == ['mininec.Mininec.f@setter'],
-          m.func('mininec.Mininec.f@setter').loc(), 'functions containing the literal 299.8: %s' % sorted(set(lits)))
+    from ..rules import self_closure
+    setter = m.func('mininec.Mininec.f@setter')
+    allowed = {setter.qual} | {g_.qual for g_ in self_closure(ctx, setter) if g_.name.startswith('_')}
+    if not lits:
+        raise AnalysisError('no use of the speed of light (299.8) found: where the wavelength comes from is not understood')
+    ck.ob('R-EFFECT.wavelength', 'speed-of-light-literal', set(lits) <= allowed and setter.qual in set(lits) | allowed,
+          setter.loc(), 'functions using the constant 299.8: %s' % sorted(set(lits)))
     # which ends are joined must not depend on where the structure is: the matching test is a function of the
     # distance between two ends only (shared with C12)
     ck.rule('R-SYM.end-matching', 'wire ends are joined by a test on their distance alone (translation / rotation invariant)')
